@@ -214,3 +214,375 @@ Proof.
   split; [apply bytes_okb_spec; vm_compute; reflexivity|].
   repeat split; vm_compute; reflexivity.
 Qed.
+
+(* ==== round3 c07sl begin ==== *)
+(* ---- audit round 3, top-12 item 11 ---------------------------------------------------------------
+   (1) The SINGLE-LAYER decoders called directly.  `repr bs s pos lim`: the slice s handed to the
+   decoder is the window [pos, lim) of a buffer bs (Parse/Repr.v; the whole buffer is `repr_whole bs :
+   repr bs (mk_slice bs) 0 (len bs)`).  A decoder called on a sub-slice reports offsets relative to
+   that slice; `shift_err e pos` moves the record into the coordinates of bs (`shift_err e 0 = e`,
+   C07_single_layer_whole states the pos = 0 instance without the shift).  The reference is the
+   per-layer function of Parse/WireSpec.v started with (length source Slice, position pos, limit lim):
+   layer, offset (0 relative to the slice), available = lim - pos = the slice length (or the value of
+   the limiting field for "UDP length < 8"), required, length source.  Proofs: the per-layer
+   refinement lemmas of Parse/StrictProofs.v with a cursor that has decoded nothing.
+   (2) C07_headers_F11_record, (3) C07_lax_stop_truthful / C07_headers_lax_stop_truthful /
+   C07_lax_stop_after_ip_fallback: the delegated families, restated from the C05 theorems.
+   Definitions and lemmas: Parse/SingleLayerTruth.v, Parse/DelegatedTruth.v (new files). *)
+From EP Require Import Parse.Repr Parse.SingleLayerTruth.
+
+Check (eq_refl : shift_err = fun e pos =>
+  match e with ELen l => ELen (le_add_offset l pos) | EContent c => EContent c end).
+
+(* transport decoders, VLAN tag, IPv6 extension chain, IP authentication header: the COMPLETE record
+   of the reference function incl. the length source (no relaxation); ARP: complete up to the length
+   source of its second check, which is the known class F7 *)
+Theorem C07_single_layer_exact : forall bs s pos lim p et nh, bytes_ok bs -> repr bs s pos lim ->
+  (forall e, UdpSlice.from_slice s = Err e -> wire_udp bs p LsSlice pos lim = VErr (shift_err e pos)) /\
+  (forall e, TcpSlice.from_slice s = Err e -> wire_tcp bs p LsSlice pos lim = VErr (shift_err e pos)) /\
+  (forall e, Icmpv4Slice.from_slice s = Err e -> wire_icmp4 bs p LsSlice pos lim = VErr (shift_err e pos)) /\
+  (forall e, Icmpv6Slice.from_slice s = Err e -> wire_icmp6 p LsSlice pos lim = VErr (shift_err e pos)) /\
+  (is_vlan et = true -> forall e, SingleVlanSlice.from_slice s = Err e ->
+     wire_ether bs 3 p et LsSlice pos lim = VErr (shift_err e pos)) /\
+  (forall e, Ipv6ExtensionsSlice.from_slice nh s = Err e ->
+     wire_exts bs (S (N.to_nat (lim - pos))) LsSlice pos lim nh = ChErr (VErr (shift_err e pos))) /\
+  (forall e, IpAuthHeaderSlice.from_slice s = Err e ->
+     wire_ah bs CeAuthZeroPayloadLen LsSlice pos lim = AhErr (VErr (shift_err e pos))) /\
+  (forall e, ArpPacketSlice.from_slice s = Err e ->
+     exists l, e = ELen l /\
+       wire_arp bs p LsSlice pos lim = VErr (ELen (le_set_src (le_add_offset l pos) LsSlice)) /\
+       (le_src l = LsSlice \/ (F7 l /\ le_required l = 8 + B bs (pos + 4) * 2 + B bs (pos + 5) * 2))).
+Proof. exact single_layer_exact. Qed.
+Print Assumptions C07_single_layer_exact.
+
+(* MACsec, ARP, Ipv4Slice, Ipv6Slice, IpSlice: the C07 relation to the reference function started at
+   the same place (which goes on behind the layer: a rejection of the single-layer decoder is the
+   rejection of the reference decoder) *)
+Theorem C07_single_layer_truthful : forall bs s pos lim, bytes_ok bs -> repr bs s pos lim ->
+  (forall e, Macsec.from_slice s = Err e ->
+     c07_truthful (VErr (shift_err e pos)) (wire_ether bs 3 empty_packet 35045 LsSlice pos lim)) /\
+  (forall e, ArpPacketSlice.from_slice s = Err e ->
+     c07_truthful (VErr (shift_err e pos)) (wire_arp bs empty_packet LsSlice pos lim)) /\
+  (forall e, Ipv4Slice.from_slice s = Err e ->
+     c07_truthful (VErr (shift_err e pos)) (wire_ipv4 bs empty_packet LsSlice pos lim)) /\
+  (forall e, Ipv6Slice.from_slice s = Err e ->
+     c07_truthful (VErr (shift_err e pos)) (wire_ipv6 bs empty_packet LsSlice pos lim)) /\
+  (forall e, IpSlice.from_slice s = Err e ->
+     c07_truthful (VErr (shift_err e pos)) (wire_ip bs empty_packet LsSlice pos lim)).
+Proof. exact single_layer_truthful. Qed.
+Print Assumptions C07_single_layer_truthful.
+
+(* the decoder is handed the whole buffer: offset 0, limit = slice length, source Slice; the reported
+   record itself is the truthful one (twelve decoders) *)
+Theorem C07_single_layer_whole : forall bs, bytes_ok bs ->
+  (forall e, Ethernet2Slice.from_slice_without_fcs (mk_slice bs) = Err e ->
+     c07_truthful (VErr e) (wire_ethernet bs)) /\
+  (forall e, LinuxSll.from_slice (mk_slice bs) = Err e -> c07_truthful (VErr e) (wire_linux_sll bs)) /\
+  (forall e, SingleVlanSlice.from_slice (mk_slice bs) = Err e ->
+     c07_truthful (VErr e) (wire_ether bs 3 empty_packet 33024 LsSlice 0 (len bs))) /\
+  (forall e, Macsec.from_slice (mk_slice bs) = Err e ->
+     c07_truthful (VErr e) (wire_ether bs 3 empty_packet 35045 LsSlice 0 (len bs))) /\
+  (forall e, ArpPacketSlice.from_slice (mk_slice bs) = Err e ->
+     c07_truthful (VErr e) (wire_arp bs empty_packet LsSlice 0 (len bs))) /\
+  (forall e, Ipv4Slice.from_slice (mk_slice bs) = Err e ->
+     c07_truthful (VErr e) (wire_ipv4 bs empty_packet LsSlice 0 (len bs))) /\
+  (forall e, Ipv6Slice.from_slice (mk_slice bs) = Err e ->
+     c07_truthful (VErr e) (wire_ipv6 bs empty_packet LsSlice 0 (len bs))) /\
+  (forall e, IpSlice.from_slice (mk_slice bs) = Err e -> c07_truthful (VErr e) (wire_from_ip bs)) /\
+  (forall e, UdpSlice.from_slice (mk_slice bs) = Err e ->
+     c07_truthful (VErr e) (wire_udp bs empty_packet LsSlice 0 (len bs))) /\
+  (forall e, TcpSlice.from_slice (mk_slice bs) = Err e ->
+     c07_truthful (VErr e) (wire_tcp bs empty_packet LsSlice 0 (len bs))) /\
+  (forall e, Icmpv4Slice.from_slice (mk_slice bs) = Err e ->
+     c07_truthful (VErr e) (wire_icmp4 bs empty_packet LsSlice 0 (len bs))) /\
+  (forall e, Icmpv6Slice.from_slice (mk_slice bs) = Err e ->
+     c07_truthful (VErr e) (wire_icmp6 empty_packet LsSlice 0 (len bs))).
+Proof. exact single_layer_whole. Qed.
+Print Assumptions C07_single_layer_whole.
+
+(* direction clause for the single-layer decoders, on every window *)
+Theorem C07_single_layer_len_direction : forall bs s pos lim nh l, bytes_ok bs -> repr bs s pos lim ->
+  (UdpSlice.from_slice s = Err (ELen l) -> len_direction l) /\
+  (TcpSlice.from_slice s = Err (ELen l) -> len_direction l) /\
+  (Icmpv4Slice.from_slice s = Err (ELen l) -> len_direction l) /\
+  (Icmpv6Slice.from_slice s = Err (ELen l) -> len_direction l) /\
+  (ArpPacketSlice.from_slice s = Err (ELen l) -> len_direction l) /\
+  (SingleVlanSlice.from_slice s = Err (ELen l) -> len_direction l) /\
+  (Macsec.from_slice s = Err (ELen l) -> len_direction l) /\
+  (Ipv4Slice.from_slice s = Err (ELen l) -> len_direction l) /\
+  (Ipv6Slice.from_slice s = Err (ELen l) -> len_direction l) /\
+  (IpSlice.from_slice s = Err (ELen l) -> len_direction l) /\
+  (Ipv6ExtensionsSlice.from_slice nh s = Err (ELen l) -> len_direction l) /\
+  (IpAuthHeaderSlice.from_slice s = Err (ELen l) -> len_direction l).
+Proof. exact single_layer_len_direction. Qed.
+Print Assumptions C07_single_layer_len_direction.
+
+Theorem C07_single_layer_start_len_direction : forall bs l, bytes_ok bs ->
+  (Ethernet2Slice.from_slice_without_fcs (mk_slice bs) = Err (ELen l) -> len_direction l) /\
+  (LinuxSll.from_slice (mk_slice bs) = Err (ELen l) -> len_direction l).
+Proof. exact single_layer_start_len_direction. Qed.
+Print Assumptions C07_single_layer_start_len_direction.
+
+(* non-vacuity: a UDP datagram at offset 34 of a 42 byte buffer whose length field says 5: the decoder
+   called on the sub-slice reports (8, 5, UdpHeaderLen, UdpHeader, offset 0), the reference decoder
+   the same record at offset 34; an ICMPv4 timestamp request of 24 bytes called directly: oversized
+   (required 20 < len 24); Ipv6Slice on a 48 byte buffer whose routing header announces 16 bytes with
+   8 present: offset 40 inside the slice, length source Ipv6HeaderPayloadLen *)
+Definition ex_udp5 : bytes := repeat 0 34 ++ [0;1;0;2;0;5;0;0].
+Definition ex_v6_route8 : bytes := [96;0;0;0; 0;8; 43;64] ++ repeat 0 32 ++ [17;1;0;0;0;0;0;0].
+Example C07_single_layer_ex :
+  bytes_ok ex_udp5 /\ repr ex_udp5 (34, [0;1;0;2;0;5;0;0]) 34 42 /\
+  UdpSlice.from_slice (34, [0;1;0;2;0;5;0;0]) = Err (ELen (mkLenError 8 5 LsUdpHeaderLen LyUdpHeader 0)) /\
+  wire_udp ex_udp5 empty_packet LsSlice 34 42 = VErr (ELen (mkLenError 8 5 LsUdpHeaderLen LyUdpHeader 34)) /\
+  Icmpv4Slice.from_slice (mk_slice (13 :: repeat 0 23)) =
+    Err (ELen (mkLenError 20 24 LsSlice LyIcmpv4Timestamp 0)) /\
+  bytes_ok ex_v6_route8 /\
+  Ipv6Slice.from_slice (mk_slice ex_v6_route8) =
+    Err (ELen (mkLenError 16 8 LsIpv6HeaderPayloadLen LyIpv6ExtHeader 40)) /\
+  wire_ipv6 ex_v6_route8 empty_packet LsSlice 0 48 =
+    VErr (ELen (mkLenError 16 8 LsIpv6HeaderPayloadLen LyIpv6ExtHeader 40)).
+Proof.
+  split; [apply bytes_okb_spec; vm_compute; reflexivity|].
+  split; [split; [vm_compute; reflexivity|split; vm_compute; discriminate]|].
+  split; [vm_compute; reflexivity|]. split; [vm_compute; reflexivity|].
+  split; [vm_compute; reflexivity|].
+  split; [apply bytes_okb_spec; vm_compute; reflexivity|].
+  split; vm_compute; reflexivity.
+Qed.
+
+(* ---- PacketHeaders::from_ip_slice INSIDE the class F11 (first nibble 4, fewer than 20 bytes): the
+   record it reports is exactly the record of the IPv4 reference decoder started at offset 0
+   (required 20, len = slice length, source Slice, layer Ipv4Header, offset 0: all true of the
+   bytes); the nibble-dispatching reference decoder `wire_from_ip` (= what SlicedPacket::from_ip is
+   compared with) reports the IHL content error or the same layer / offset / len with required =
+   IHL*4; the direction clause holds *)
+From EP Require Import Parse.DelegatedTruth.
+Theorem C07_headers_F11_record : forall bs, bytes_ok bs -> F11 bs = true ->
+  PacketHeaders.from_ip_slice bs = Err (ELen (mkLenError 20 (len bs) LsSlice LyIpv4Header 0)) /\
+  wire_ipv4 bs empty_packet LsSlice 0 (len bs) =
+    VErr (ELen (mkLenError 20 (len bs) LsSlice LyIpv4Header 0)) /\
+  0 < len bs < 20 /\ B bs 0 / 16 = 4 /\
+  wire_from_ip bs =
+    VErr (if B bs 0 mod 16 <? 5 then EContent (CeIpIhl (B bs 0 mod 16))
+          else ELen (mkLenError (B bs 0 mod 16 * 4) (len bs) LsSlice LyIpv4Header 0)) /\
+  len_direction (mkLenError 20 (len bs) LsSlice LyIpv4Header 0).
+Proof. exact headers_f11_record. Qed.
+Print Assumptions C07_headers_F11_record.
+
+Example C07_headers_F11_ex :
+  bytes_ok [70;0;0] /\ F11 [70;0;0] = true /\
+  PacketHeaders.from_ip_slice [70;0;0] = Err (ELen (mkLenError 20 3 LsSlice LyIpv4Header 0)) /\
+  wire_from_ip [70;0;0] = VErr (ELen (mkLenError 24 3 LsSlice LyIpv4Header 0)).
+Proof.
+  split; [apply bytes_okb_spec; vm_compute; reflexivity|]. repeat split; vm_compute; reflexivity.
+Qed.
+
+(* ---- lax stop errors -------------------------------------------------------------------------------
+   Every stop error (e', tag ly) of LaxSlicedPacket, for a fault behind the first header: the strict
+   reference decoder rejects the same bytes with some e_ref, and (outside the known class F10) one of
+     - e' is the same fault: C07 relation to e_ref (layer, offset, len, required_len; len_source the
+       reference's or Slice outside F7; content value), the tag fits, and the direction clause holds;
+     - F11 group: e_ref and e' are both faults of the IP header itself at the same offset, tag IpHeader;
+     - e_ref is a documented length fallback (IPv4 total length, IPv6 payload length, MACsec short
+       length, UDP length): the stop error stems from the resumed decoding, see
+       C07_lax_stop_after_ip_fallback for the two IP fallbacks. *)
+From EP Require Import Parse.LaxSlices Parse.LaxCursor Parse.LaxView Parse.LaxProofs Parse.LaxFacts
+  Parse.LaxWire Parse.LaxWire2 Parse.HdrLaxModel Parse.HdrLaxView Parse.HdrLaxCut Parse.HdrLaxC05.
+Theorem C07_lax_stop_truthful : forall bs et, bytes_ok bs ->
+  (14 <= len bs -> lax_stop_ok bs (wire_ethernet bs) (LaxSlicedPacket.from_ethernet bs)) /\
+  lax_stop_ok bs (wire_ether_type bs et) (LaxSlicedPacket.from_ether_type et bs) /\
+  (ip_header_fault bs = None -> lax_stop_ok bs (wire_from_ip bs) (LaxSlicedPacket.from_ip bs)).
+Proof. exact lax_stop_truthful. Qed.
+Print Assumptions C07_lax_stop_truthful.
+
+(* pin the meaning *)
+Check (eq_refl : lax_stop_ok =
+  fun bs w lax => forall r' e' ly, lax = Ok r' -> lsp_stop_err r' = Some (e', ly) ->
+    exists e_ref, w = VErr e_ref /\ (F10_class bs e_ref \/ stop_truthful e_ref e' ly)).
+Check (eq_refl : stop_truthful =
+  fun e_ref e' ly =>
+    (c07_truthful (VErr e') (VErr e_ref) /\ tag_ok e' ly /\
+     (forall l, e' = ELen l -> len_direction l)) \/
+    (ip_hdr_class e_ref /\ ip_hdr_class e' /\ ly = LyIpHeader /\
+     (forall o o', err_off e_ref = Some o -> err_off e' = Some o' -> o = o')) \/
+    fallback e_ref).
+
+(* LaxPacketHeaders, from the side of the reference decoder: it rejects with e_ref behind the first
+   header, outside F10 and outside the refilled-extension class  ==>  LaxPacketHeaders returns Ok and
+   its stop error is related to e_ref in the same three ways *)
+Theorem C07_headers_lax_stop_truthful : forall bs et, bytes_ok bs ->
+  (14 <= len bs ->
+   hdr_stop_ok bs (wire_ethernet bs) (LaxCut.from_ethernet true bs) (LaxPacketHeaders.from_ethernet bs)) /\
+  hdr_stop_ok bs (wire_ether_type bs et) (LaxCut.from_ether_type true et bs)
+    (LaxPacketHeaders.from_ether_type et bs) /\
+  (ip_header_fault bs = None ->
+   hdr_stop_ok bs (wire_from_ip bs) (LaxCut.from_ip true bs) (LaxPacketHeaders.from_ip bs)).
+Proof. exact hdr_lax_stop_truthful. Qed.
+Print Assumptions C07_headers_lax_stop_truthful.
+
+Check (eq_refl : hdr_stop_ok =
+  fun bs w laxcut lh =>
+    forall e_ref, w = VErr e_ref -> lax_stopped_at_ext laxcut = false -> ~ F10_class bs e_ref ->
+      exists p v, lh = Ok p /\ lhview_of p = Ok v /\
+        ((exists e' ly, lhv_stop v = Some (e', ly) /\
+            c07_truthful (VErr e') (VErr e_ref) /\ tag_ok e' ly /\
+            (forall l, e' = ELen l -> len_direction l)) \/
+         (ip_hdr_class e_ref /\
+          exists e', lhv_stop v = Some (e', LyIpHeader) /\ ip_hdr_class e' /\
+            (f11_stop (lhv_stop v) = false ->
+             forall o o', err_off e_ref = Some o -> err_off e' = Some o' -> o = o')) \/
+         fallback e_ref)).
+
+(* the fallback disjunct for the two IP length fallbacks: the finer instrumented reference decoder
+   answers P2Fb q e_fb inc resumed (e_fb = the IPv4 total length / IPv6 payload length rejection,
+   resumed = the same strict reference decoder continued with the data that is there); the lax stop
+   error is exactly (error, tag) of `resumed` when that rejects inside the network layer, and related
+   to its rejection as above when it rejects behind the network layer *)
+Theorem C07_lax_stop_after_ip_fallback : forall bs et, bytes_ok bs ->
+  (14 <= len bs ->
+   fallback_stop_ok (wire_ethernet bs) (pwire2_ethernet bs) (LaxSlicedPacket.from_ethernet bs)) /\
+  fallback_stop_ok (wire_ether_type bs et) (pwire2_ether_type bs et)
+    (LaxSlicedPacket.from_ether_type et bs) /\
+  (ip_header_fault bs = None ->
+   fallback_stop_ok (wire_from_ip bs) (pwire2_from_ip bs) (LaxSlicedPacket.from_ip bs)).
+Proof. exact lax_stop_after_ip_fallback. Qed.
+Print Assumptions C07_lax_stop_after_ip_fallback.
+
+Check (eq_refl : fallback_stop_ok =
+  fun w pw lax => forall q e_fb inc resumed, pw = P2Fb q e_fb inc resumed ->
+    w = VErr e_fb /\
+    exists r', lax = Ok r' /\
+      match resumed with
+      | P2RejNet _ _ tag e2 => lsp_stop_err r' = Some (e2, tag)
+      | P2Rej _ e2 => behind_truthful e2 (lsp_stop_err r')
+      | P2Acc _ => True
+      | _ => False
+      end).
+Check (eq_refl : behind_truthful =
+  fun e2 stop =>
+    (exists e' ly, stop = Some (e', ly) /\ c07_truthful (VErr e') (VErr e2) /\ tag_ok e' ly) \/
+    (ip_hdr_class e2 /\
+     exists e', stop = Some (e', LyIpHeader) /\ ip_hdr_class e' /\
+       (forall o o', err_off e2 = Some o -> err_off e' = Some o' -> o = o')) \/
+    fallback e2).
+
+(* non-vacuity: Ethernet II / IPv4 / TCP with 4 of 20 TCP header bytes (the packet of
+   C05_ex_prefix_stop): the stop error of LaxSlicedPacket is the reference decoder's record, first
+   disjunct; and an IPv4 packet whose total length (44) exceeds the 32 bytes present, carrying a
+   cut-short authentication header: P2Fb, resumed rejects inside the network layer *)
+Definition ex_tcp_cut7 : bytes :=
+  [1;2;3;4;5;6; 7;8;9;10;11;12; 8;0;
+   69;0;0;24; 0;0;0;0; 64;6;0;0; 1;2;3;4; 5;6;7;8;
+   0;1;0;2].
+Definition ex_v4_fb_ah7 : bytes :=
+  [69;0;0;44; 0;0;0;0; 64;51;0;0; 1;2;3;4; 5;6;7;8] ++ [6;4;0;0; 0;0;0;1; 0;0;0;2].
+Example C07_lax_stop_ex :
+  bytes_ok ex_tcp_cut7 /\ 14 <= len ex_tcp_cut7 /\
+  (exists r', LaxSlicedPacket.from_ethernet ex_tcp_cut7 = Ok r' /\
+     lsp_stop_err r' = Some (ELen (mkLenError 20 4 LsIpv4HeaderTotalLen LyTcpHeader 34), LyTcpHeader)) /\
+  wire_ethernet ex_tcp_cut7 = VErr (ELen (mkLenError 20 4 LsIpv4HeaderTotalLen LyTcpHeader 34)) /\
+  bytes_ok ex_v4_fb_ah7 /\ ip_header_fault ex_v4_fb_ah7 = None /\
+  (exists q inc q' n,
+     pwire2_from_ip ex_v4_fb_ah7 =
+       P2Fb q (ELen (mkLenError 44 32 LsSlice LyIpv4Packet 0)) inc
+         (P2RejNet q' n LyIpAuthHeader (ELen (mkLenError 24 12 LsSlice LyIpAuthHeader 20)))) /\
+  (exists r', LaxSlicedPacket.from_ip ex_v4_fb_ah7 = Ok r' /\
+     lsp_stop_err r' = Some (ELen (mkLenError 24 12 LsSlice LyIpAuthHeader 20), LyIpAuthHeader)).
+Proof.
+  split; [apply bytes_okb_spec; vm_compute; reflexivity|].
+  split; [vm_compute; discriminate|].
+  split; [eexists; split; vm_compute; reflexivity|].
+  split; [vm_compute; reflexivity|].
+  split; [apply bytes_okb_spec; vm_compute; reflexivity|].
+  split; [vm_compute; reflexivity|].
+  split; [eexists _, _, _, _; vm_compute; reflexivity|].
+  eexists; split; vm_compute; reflexivity.
+Qed.
+
+(* ---- audit round 3, top-12 item 3 (PARTIAL): fault geometry of the reference decoder ---------------
+   `pwire_X` (Parse/LaxWire.v) is the strict reference decoder handing back the layers q decoded in
+   front of the fault (forget pwire = wire: C05_partial_reference_sound).  `cur_window start q` is
+   the data window these layers leave for the next layer, computed from the windows of q alone
+   (payload of the IP layer / of the last link extension / behind the link header = start).
+   `located bs start q e`: that window exists, ends inside the buffer, and the fault lies AT its
+   start with len = its length (or = the failing header's own length field: IPv4 total length
+   smaller than the header, UDP length smaller than 8); for a header inside the network layer
+   (authentication header, IPv6 extension chain) the fault lies INSIDE the window.
+   Full statement of the audit (not proved, hence _partial): additionally `prefix_nested bs q`, for
+   faults inside the network layer the exact start (= end of the extension headers in front) and
+   end (= what the IP length field allows), the len_source clause (`le_src e <> LsSlice -> a layer
+   of q carries that non-zero length field and the window ends where it says`), and the position of
+   content values. *)
+From EP Require Import Parse.FaultGeometry.
+Theorem C07_reference_fault_geometry_partial : forall bs et q e,
+  (14 <= len bs -> pwire_ethernet bs = PRej q (ELen e) -> located bs (14, len bs - 14) q e) /\
+  (pwire_ether_type bs et = PRej q (ELen e) -> located bs (0, len bs) q e) /\
+  (pwire_from_ip bs = PRej q (ELen e) -> located bs (0, len bs) q e).
+Proof. exact pwire_fault_geometry. Qed.
+Print Assumptions C07_reference_fault_geometry_partial.
+
+(* transferred to the model of SlicedPacket: its error has layer, offset, len, required_len of a
+   reference rejection (q, se) that is located in this sense *)
+Theorem C07_strict_fault_geometry_partial : forall bs et e, bytes_ok bs ->
+  (14 <= len bs -> SlicedPacket.from_ethernet bs = Err (ELen e) ->
+   exists q se, pwire_ethernet bs = PRej q (ELen se) /\ same_place e se /\
+                located bs (14, len bs - 14) q se) /\
+  (SlicedPacket.from_ether_type et bs = Err (ELen e) ->
+   exists q se, pwire_ether_type bs et = PRej q (ELen se) /\ same_place e se /\
+                located bs (0, len bs) q se) /\
+  (SlicedPacket.from_ip bs = Err (ELen e) ->
+   exists q se, pwire_from_ip bs = PRej q (ELen se) /\ same_place e se /\
+                located bs (0, len bs) q se).
+Proof. exact strict_fault_geometry. Qed.
+Print Assumptions C07_strict_fault_geometry_partial.
+
+(* pin the meaning *)
+Check (eq_refl : located =
+  fun bs start q e => exists w, cur_window start q = Some w /\ fst w + snd w <= len bs /\
+    (inner_net e = false -> at_window bs w e) /\ (inner_net e = true -> in_window w e)).
+Check (eq_refl : cur_window =
+  fun start q =>
+    match v_net q with
+    | Some (VIpv4 _ _ ip) => Some (vip_win ip)
+    | Some (VIpv6 _ _ _ _ ip) => Some (vip_win ip)
+    | Some (VArp _) => None
+    | None => match last (map Some (v_exts q)) None with
+              | None => Some start
+              | Some x => ext_rest x
+              end
+    end).
+Check (eq_refl : ext_rest =
+  fun x => match x with
+           | VVlan (o, l) => Some (o + 4, l - 4)
+           | VMacsec _ (VMpUnmodified e) => Some (vep_win e)
+           | VMacsec _ (VMpModified _) => None
+           end).
+Check (eq_refl : at_window =
+  fun bs w e =>
+    le_off e = fst w /\
+    (le_len e = snd w \/
+     (le_layer e = LyIpv4Packet /\ le_src e = LsIpv4HeaderTotalLen /\ le_len e = W bs (fst w + 2)) \/
+     (le_layer e = LyUdpHeader /\ le_src e = LsUdpHeaderLen /\ le_len e = W bs (fst w + 4)))).
+Check (eq_refl : in_window =
+  fun w e => fst w <= le_off e /\ le_off e + le_len e <= fst w + snd w).
+Check (eq_refl : inner_net =
+  fun e => match le_layer e with
+           | LyIpAuthHeader | LyIpv6ExtHeader | LyIpv6FragHeader => true
+           | _ => false
+           end).
+Check (eq_refl : same_place =
+  fun e se => le_layer e = le_layer se /\ le_off e = le_off se /\ le_len e = le_len se /\
+              le_required e = le_required se).
+
+(* non-vacuity: the packet of C07_ex (Ethernet + MACsec short length 4 + VLAN + cut IPv4 header): the
+   prefix is Ethernet / MACsec / VLAN, the window it leaves is [26, 28), the fault lies at 26 with
+   len 2; and the TCP cut of C07_lax_stop_ex: window of the IPv4 payload [34, 38) *)
+Example C07_fault_geometry_ex :
+  (exists q, pwire_ethernet ex_macsec =
+               PRej q (ELen (mkLenError 20 2 LsMacsecShortLength LyIpv4Header 26)) /\
+             cur_window (14, len ex_macsec - 14) q = Some (26, 2)) /\
+  (exists q, pwire_ethernet ex_tcp_cut7 =
+               PRej q (ELen (mkLenError 20 4 LsIpv4HeaderTotalLen LyTcpHeader 34)) /\
+             cur_window (14, len ex_tcp_cut7 - 14) q = Some (34, 4)).
+Proof. split; eexists; split; vm_compute; reflexivity. Qed.
+(* ==== round3 c07sl end ==== *)
